@@ -15,7 +15,9 @@ SPEC = {
         ("non-emitting layers(calls are non-emitting for this observation with the observation segment; emitting for the next)", 'ne_inner', r'^ne-inner:(one-non|layer)'),
         ("non-emitting chains link to the NEXT observation with an emitting call", 'ne_end', r'^ne-end:one-emitting'),
         ("_build_node_path(final entry taken from lattice[start_idx], deepest live layer preferred as documented)", 'final_choice', r'choose:'),
-        ("match(index bookkeeping: early stop detected exactly when the previous column has no live emitting entry, ([],0) only without an admissible first candidate, index = start of the backtracking, complete match reports len-1)", 'match', r'^(result:|loop:(early-stop|continues|runs-over|nothing))')],
+        ("match(index bookkeeping: early stop detected exactly when the previous column has no live emitting entry, ([],0) only without an admissible first candidate, index = start of the backtracking, complete match reports len-1)", 'match', r'^(result:|loop:(early-stop|continues|runs-over|nothing))'),
+        ("_build_node_path(returned sequence = state keys of the back-tracked entries in order; unique removes exactly the immediate repetitions: loop invariant)", 'path_tail', r'(^tail:|^unique:|::inv-(init|preserved)::)'),
+        ("_build_matching_path(back-tracking follows the stored predecessor links to a most probable predecessor; depth counts emitting entries; result reversed from the chosen entry: loop invariants)", 'backtrack', r'(^chain:|::inv-(init|preserved)::)')],
     'bounded': [
         ('alignment-postcondition', suites.case_C03, 1500, 25000, RULE + '; ' + 'non-trivial = non-empty result with an early stop or a non-emitting state on the path; unique on/off', '')],
 }
